@@ -1,13 +1,13 @@
 CONSTANTS
-  Rates = {8000, 48000, 90000}
+  Rates = {90000}
   StartSet = {"zero"}
-  DurKinds = {"third", "ntsc"}
+  DurKinds = {"ms20"}
   Drops = {0, 1}
   Sizes = {1}
-  MaxLen = 9
-  SeqOpts = {TRUE}
+  MaxLen = 7
+  SeqOpts = {TRUE, FALSE}
   TsOpts = {TRUE}
-  Rebinds = FALSE
+  Rebinds = TRUE
   Impl = "carry"
 INIT Init
 NEXT Next
